@@ -27,11 +27,15 @@ TRUSTED = [
 ]
 ASSUMPTIONS = [
     'all Parameters of a history are param.String(default=str(d), regex="^[0-hi]$") (not Dynamic; 50% of random histories, all exhaustive ones) '
-    'or param.Integer(default=d, bounds=(None, hi)) (Dynamic), with an explicit default; values are the ints 0..9 and None (every Parameter is allow_None=True; None crosses the boundary as -1, which passes every upper bound like None does)',
+    'or param.Integer(default=d, bounds=(None, hi)) (Dynamic), or (kind Nosy, 20% of random histories) a String subclass whose _validate first reads '
+    '`self.owner.param` — namespace reads *during* assignments; the model has no separate step for them because a read only fills a cache with the fresh walk '
+    '(unobservable while Inv holds) — with an explicit default; values are the ints 0..9 and None (every Parameter is allow_None=True; None crosses the boundary as -1, which passes every upper bound like None does)',
     'the inherited `name` parameter is filtered out of every observation; watchers, dynamic values and '
-    'Parameter-valued class assignment (`C.y = param.Integer()`, which never updates a cache and leaves the Parameter unnamed) are outside the model',
+    'Parameter-valued class assignment (`C.y = param.Integer()`) is modelled at class level only and only in directed cases (known finding: it clears no cache and '
+    'leaves the Parameter unnamed, which breaks it at instance level); the hierarchy is fixed at the start of a history (no class creation inside it)',
     'class-level / instance-level assignment to a name that is not a Parameter there (plain Python attribute) is skipped on both sides',
     '`repr`, watching: not observed separately; they read the same `objects("existing")` dictionary as values() and serialisation',
+    'edit_constant appears as a reader of the class namespace (instBlock: an empty block); its flag handling is C14',
 ]
 RULE = ('directed prefix (stale-cache scenarios of the design round, failed add_parameter, every model branch) + all histories of '
         'length <=2 over a fixed alphabet on a 3-class chain and a diamond, once observing everything after every step and once only '
@@ -46,8 +50,9 @@ COVERAGE_TARGETS = [
     'newInst:ok', 'newInst:ok:kwargs', 'newInst:TypeError:kwargs', 'newInst:ValueError:kwargs',
     'instSet:ok:makes-copy', 'instSet:ok:has-copy', 'instSet:ValueError:has-copy', 'instSet:skip:makes-copy',
     'instParam:ok:makes-copy', 'instParam:ok:has-copy', 'instParam:KeyError:makes-copy',
+    'instBlock:ok:fill', 'instBlock:ok:cached', 'clsSetParam:ok:unread', 'clsSetParam:ok:cache-read', 
     'shape:chain3', 'shape:chain4', 'shape:diamond', 'shape:diamond-tail', 'shape:two-roots', 'shape:fork',
-    'obs:stale-window', 'kind:String', 'kind:Integer', 'value:None-on-instance', 'value:None-class-default',
+    'obs:stale-window', 'kind:String', 'kind:Integer', 'kind:Nosy', 'value:None-on-instance', 'value:None-class-default',
 ]
 
 NAMES = ['x', 'y', 'z']
@@ -100,12 +105,23 @@ def run_impl(case):
     enc = (lambda v: None if v == -1 else v) if dyn else (lambda v: None if v == -1 else str(v))
     dec = lambda v: None if v is ABSENT else (-1 if v is None else int(v))
 
+    class NosyString(param.String):
+        """a String whose validation consults the namespace of its owner (class or instance) first:
+        namespace reads *during* an assignment"""
+
+        def _validate(self, val):
+            if self.owner is not None:
+                list(self.owner.param)
+            super()._validate(val)
+
+    Str = NosyString if case['kind'] == 'Nosy' else param.String
+
     def mkparam(d, hi):
         if dyn:
             return (param.Integer(default=d, bounds=(None, hi), allow_None=True) if hi is not None
                     else param.Integer(default=d, allow_None=True))
-        return (param.String(default=str(d), regex=f'^[0-{hi}]$', allow_None=True) if hi is not None
-                else param.String(default=str(d), allow_None=True))
+        return (Str(default=str(d), regex=f'^[0-{hi}]$', allow_None=True) if hi is not None
+                else Str(default=str(d), allow_None=True))
 
     try:
         classes = []
@@ -170,6 +186,17 @@ def run_impl(case):
                     p = mkparam(st['d'], st.get('hi'))
                     register(p)
                     classes[st['c']].param.add_parameter(st['n'], p)
+                elif op == 'clsSetParam':
+                    p = mkparam(st['d'], st.get('hi'))
+                    register(p)
+                    setattr(classes[st['c']], st['n'], p)      # Parameter-valued class assignment
+                elif op == 'instBlock':
+                    if st['i'] >= len(insts):
+                        res = 'stuck'
+                    else:
+                        from param.parameterized import edit_constant
+                        with edit_constant(insts[st['i']]):
+                            pass
                 elif op == 'newInst':
                     insts.append(classes[st['c']](**{k: enc(v) for k, v in st['kw']}))
                 elif op in ('instSet', 'instParam'):
@@ -259,6 +286,15 @@ def _directed():
         {'op': 'instParam', 'i': 1, 'n': 'x'}, {'op': 'instParam', 'i': 1, 'n': 'x'}, {'op': 'instParam', 'i': 1, 'n': 'q'},
         {'op': 'addParam', 'c': 0, 'n': 'x', 'd': 6, 'hi': None}, {'op': 'instSet', 'i': 1, 'n': 'x', 'v': 6},
         {'op': 'instSet', 'i': 5, 'n': 'x', 'v': 6}], 'all'))
+    # edit_constant reads the class namespace and must not write per-instance copies into it
+    out.append(('chain3', D3, [{'op': 'newInst', 'c': 2, 'kw': []}, {'op': 'instSet', 'i': 0, 'n': 'y', 'v': 3},
+                               {'op': 'instBlock', 'i': 0}, {'op': 'clsSet', 'c': 2, 'n': 'y', 'v': 7},
+                               {'op': 'newInst', 'c': 2, 'kw': []}, {'op': 'instBlock', 'i': 1}, {'op': 'instBlock', 'i': 5}], 'all'))
+    # Parameter-valued class assignment: clears no cache (known finding), harmless before any read
+    out.append(('chain3', D3, [{'op': 'clsSetParam', 'c': 0, 'n': 'z', 'd': 3, 'hi': None}], 'end'))
+    out.append(('chain3', D3, [R(1), {'op': 'clsSetParam', 'c': 0, 'n': 'z', 'd': 3, 'hi': None}], 'end'))
+    out.append(('chain3', D3, [R(2), {'op': 'clsSetParam', 'c': 1, 'n': 'x', 'd': 2, 'hi': None}], 'end'))
+    out.append(('chain3', D3, [{'op': 'clsSetParam', 'c': 1, 'n': 'x', 'd': 9, 'hi': None}], 'end'))
     # per-instance copy, then the class Parameter is replaced underneath it
     for shape in SHAPES:
         n = len(SHAPES[shape])
@@ -276,7 +312,13 @@ def _directed():
             ('chain3', D3, [{'op': 'newInst', 'c': 2, 'kw': [['y', -1]]}, {'op': 'instSet', 'i': 0, 'n': 'x', 'v': -1},
                             {'op': 'clsSet', 'c': 0, 'n': 'y', 'v': 4}, {'op': 'clsSet', 'c': 1, 'n': 'x', 'v': -1},
                             {'op': 'newInst', 'c': 2, 'kw': []}, {'op': 'instSet', 'i': 1, 'n': 'x', 'v': 0}], 'all')]
-    return [_finish(s, d, o, p) for s, d, o, p in out] + \
+    # validation that reads the namespace while a (rejected) class-level assignment is in progress
+    nosy = [('chain3', D3, [{'op': 'clsSet', 'c': 2, 'n': 'x', 'v': 7}, {'op': 'clsSet', 'c': 1, 'n': 'x', 'v': 8},
+                            {'op': 'clsSet', 'c': 1, 'n': 'x', 'v': 3}, {'op': 'clsSet', 'c': 2, 'n': 'x', 'v': 9},
+                            {'op': 'newInst', 'c': 2, 'kw': [['x', 9]]}, {'op': 'newInst', 'c': 2, 'kw': [['x', 2]]},
+                            {'op': 'instSet', 'i': 0, 'n': 'x', 'v': 9}, {'op': 'clsSet', 'c': 0, 'n': 'x', 'v': 9}], pol)
+            for pol in ('all', 'end')]
+    return [_finish(s, d, o, p) for s, d, o, p in out] + [_finish(s, d, o, p, kind='Nosy') for s, d, o, p in nosy] + \
            [_finish(s, d, o, p, kind='Integer') for s, d, o, p in out[:7] + out2] + \
            [_finish(s, d, o, p) for s, d, o, p in out2[1:]]
 
@@ -290,7 +332,7 @@ def _alphabet(ncls):
                 {'op': 'addParam', 'c': c, 'n': 'x', 'd': 9, 'hi': None}]
     ops += [{'op': 'newInst', 'c': ncls - 1, 'kw': []}, {'op': 'newInst', 'c': 1, 'kw': [['x', 4]]},
             {'op': 'instSet', 'i': 0, 'n': 'x', 'v': 2}, {'op': 'instSet', 'i': 0, 'n': 'y', 'v': 6},
-            {'op': 'instParam', 'i': 0, 'n': 'x'}, {'op': 'instParam', 'i': 0, 'n': 'z'}]
+            {'op': 'instParam', 'i': 0, 'n': 'x'}, {'op': 'instParam', 'i': 0, 'n': 'z'}, {'op': 'instBlock', 'i': 0}]
     return ops
 
 
@@ -327,10 +369,12 @@ def _random_case(rng):
             ninst += 1
         elif r < 0.88:
             op = {'op': 'instSet', 'i': rng.randrange(ninst), 'n': n, 'v': -1 if rng.random() < 0.2 else rng.randint(0, 8)}
-        else:
+        elif r < 0.96:
             op = {'op': 'instParam', 'i': rng.randrange(ninst), 'n': n}
+        else:
+            op = {'op': 'instBlock', 'i': rng.randrange(ninst)}
         ops.append(op)
-    return _finish(shape, decls, ops, 'random', rng, kind='Integer' if rng.random() < 0.5 else 'String')
+    return _finish(shape, decls, ops, 'random', rng, kind=rng.choice(['Integer', 'Integer', 'String', 'String', 'Nosy']))
 
 
 def cases(rng, tier, worker, nworkers):
@@ -431,6 +475,15 @@ def shrink(case):
 
 
 def classify(case, impl, fail):
-    """no open finding for C13: the failed-add_parameter stale cache (9350ff5) and the Dynamic-type values()
-    reading the per-instance copy's default (9f6df2c) are repaired in /repo; their histories are in corpus/C13"""
+    """narrow keys of KNOWN_FINDINGS.txt"""
+    import re
+    if fail.get('kind') != 'counterexample' or not isinstance(impl, dict) or 'steps' not in impl:
+        return None
+    m = re.match(r"after step (\d+): (?:class|instance) \d+ '(\w+)'", str(fail.get('why')))
+    if not m:
+        return None
+    k, name = int(m.group(1)), m.group(2)
+    # a Parameter object assigned at class level under that name, at or before the failing step
+    if any(st['op'] == 'clsSetParam' and st['n'] == name for st in case['steps'][:k + 1]):
+        return 'parameter-valued-class-assignment-clears-no-cache'
     return None
